@@ -59,6 +59,8 @@ type Contract struct {
 	Replay   string
 	BehavAssumes map[string][]*Clause
 	Guards   []*Guard
+	ModAll    bool
+	ModExcept []string // with ModAll: components (pkg-local "Type.field") that are NOT modified
 	All      []*Clause
 }
 
@@ -320,7 +322,13 @@ func (cs *ContractSet) parseItem(file, pkgPath, header string, line int, clauses
 				}
 			case "modifies":
 				c.HasMod = true
-				if body != "nothing" {
+				if strings.HasPrefix(body, "everything except ") {
+					// everything may change except the listed components ("Type.field")
+					for _, part := range splitTop(strings.TrimPrefix(body, "everything except "), ',') {
+						c.ModExcept = append(c.ModExcept, strings.TrimSpace(part))
+					}
+					c.ModAll = true
+				} else if body != "nothing" {
 					for _, part := range splitTop(body, ',') {
 						e, err := parseExpr(part)
 						if err != nil {
